@@ -429,6 +429,70 @@ def scenario_snapshot_while_waiting_reply(repo, seed, observer=False):
     return sim, viols, None if forwarded else "the command was not forwarded between the chunks"
 
 
+def scenario_sync_call_leader_change(repo, seed):
+    """A BLOCKING call (sync=True) made on a follower: the old leader appends the forwarded command and replicates it to
+    the node that becomes the next leader, the reply never reaches the caller.  The caller is told LEADER_CHANGED (the
+    outcome is open) - the command is applied AT MOST ONCE, whatever the call then returns or raises."""
+    import threading
+    voters = ["a", "b", "c"]
+    sim = Sim(repo, voters, seed=seed)
+    sim.connect_all()
+    L = sim.elect(among=voters)
+    if L is None:
+        return sim, [], "no leader"
+    sim.run(6)
+    F, N = [x for x in voters if x != L]
+    out = {}
+
+    def caller():
+        try:
+            out["result"] = sim.objs[F].add("S", sync=True, timeout=20.0)
+        except Exception as e:                      # SyncObjException(reason)
+            out["error"] = getattr(e, "errorCode", repr(e))
+    th = threading.Thread(target=caller)
+    th.daemon = True
+    th.start()
+    t0 = time.time()
+    while len(sim.objs[F]._SyncObj__commandsQueue._FastQueue__queue) == 0 and time.time() - t0 < 5:
+        time.sleep(0.001)
+    sim.tick(F, 0.0)                                # forwarded to L
+    while sim.deliver(F, L):
+        pass
+    for _ in range(4):                              # L appends S, answers F and (a tick or two later) sends the entry
+        sim.tick(L, 0.0625)
+        if any(isinstance(m, dict) and m.get("entries") for m in sim.chan[(L, N)]):
+            break
+    while sim.deliver(L, N):                        # N (the next leader) stores S
+        pass
+    sim.chan[(L, F)].clear()                        # the reply and the entry for F are lost with the connection
+    for j in (F, N):
+        sim.disconnect(L, j)
+    for _ in range(300):                            # only N's clock runs: it wins with F's vote
+        sim.tick(N, 0.0625)
+        sim.deliver_all(among={F, N})
+        sim.tick(F, 0.0)
+        sim.deliver_all(among={F, N})
+        if sim.objs[N]._isLeader():
+            break
+    for _ in range(60):
+        sim.run(1, among=[F, N])
+        if not th.is_alive():
+            break
+        time.sleep(0.002)
+    sim.run(20, among=[F, N])
+    th.join(8.0)
+    viols = monitors.errors(sim) + monitors.sm_safety(sim)
+    ran = dict((n, [x for (_, x) in sim.execs[n]].count("S")) for n in (F, N))
+    if any(v > 1 for v in ran.values()):
+        viols.append({"signature": "sync-call:command-applied-twice-after-leader-change",
+                      "what": "blocking add('S') on follower %s: leader %s appended it and replicated it to %s, the reply was lost, %s was "
+                              "elected: the command was executed %s times; the call %s" % (F, L, N, N, ran, out)})
+    if th.is_alive():
+        viols.append({"signature": "sync-call:caller-still-blocked", "what": "the blocking call did not return: %s" % (out,)})
+    note = None if sim.objs[N]._isLeader() and ran.get(N, 0) >= 1 else "the forwarded command did not survive the leader change"
+    return sim, viols, note
+
+
 def run(ctx):
     t0 = time.time()
     cases, viols, samples, notes = 0, [], [], []
@@ -525,6 +589,16 @@ def run(ctx):
             for x in v:
                 x["replay"] = {"component": "corr.c02_forwarding", "snapreply": [observer], "seed": ctx.seed}
             viols.extend(v)
+    if not viols:
+        for k in range(2):
+            sim, v, note = scenario_sync_call_leader_change(ctx.repo, ctx.seed + k)
+            cases += 1
+            seen.add((("synclc", k), note is None))
+            if note:
+                notes.append(note)
+            for x in v:
+                x["replay"] = {"component": "corr.c02_forwarding", "synclc": [ctx.seed + k]}
+            viols.extend(v)
     reached = len([1 for (p, ok) in seen if ok])
     r = {"name": "corr.c02_forwarding", "cases": cases, "distinct": len(seen), "violations": viols[:5],
          "coverage": {"plans": len(plans), "plans_reaching_the_point": reached, "notes": sorted(set(notes))[:5]},
@@ -544,6 +618,9 @@ def run(ctx):
 
 def replay(ctx, violation):
     rp = violation.get("replay", {})
+    if "synclc" in rp:
+        sim, v, note = scenario_sync_call_leader_change(ctx.repo, *rp["synclc"])
+        return {"violated": bool(v), "violations": v[:5], "note": note}
     if "snapreply" in rp:
         sim, v, note = scenario_snapshot_while_waiting_reply(ctx.repo, rp.get("seed", 1), *rp["snapreply"])
         return {"violated": bool(v), "violations": v[:5], "note": note}
